@@ -120,6 +120,50 @@ def evaluate(ctx, root, old_text, new_text):
     return {"class": cls, "output": out}
 
 
+def imported_revisions_layer(ctx, same_package_class):
+    """The changed definitions live in a library namespace `Lib` that the old and the new version of `App` import in two different
+    revisions (two directories, same namespace name).  The verdict must be the one yardl gives when the same definitions are
+    part of the package itself (same_package_class: label -> class, computed by the real yardl in the main layer)."""
+    app = "P: !protocol\n  sequence:\n    a: int32\n    r: Lib.R\n"
+    jobs = [(name, old[:-len(P0)], new[:-len(P0)], doc) for name, old, new, doc in EDITS
+            if old.endswith(P0) and new.endswith(P0) and "P:" not in old[:-len(P0)] and "P:" not in new[:-len(P0)]]
+
+    def one(ij):
+        i, (name, lo, ln, doc) = ij
+        root = os.path.join(ctx.scratch, "imp%d" % i)
+        for d, ns, extra, text in (("libold", "Lib", "", lo), ("libnew", "Lib", "", ln),
+                                   ("old", "App", "imports:\n  - ../libold\n", app),
+                                   ("new", "App", "imports:\n  - ../libnew\nversions:\n  v0: ../old\n", app)):
+            os.makedirs(os.path.join(root, d), exist_ok=True)
+            open(os.path.join(root, d, "_package.yml"), "w").write("namespace: %s\n%s" % (ns, extra))
+            open(os.path.join(root, d, "m.yml"), "w").write(text)
+        for d in ("old",):
+            rc, o, e = sh([ctx.yardl, "validate"], cwd=os.path.join(root, d), timeout=60)
+            if rc != 0:
+                return None
+        rc, o, e = sh([ctx.yardl, "validate"], cwd=os.path.join(root, "new"), timeout=60)
+        out = clean(o + e)
+        crashed = rc not in (0, 1) or "panic" in out or "goroutine" in out
+        return {"class": "crash" if crashed else ("err" if rc != 0 else ("warn" if "WRN" in out else "ok")), "output": out,
+                "lib_old": lo, "lib_new": ln}
+    with ThreadPoolExecutor(max_workers=12) as ex:
+        res = list(ex.map(one, enumerate(jobs)))
+    for (name, lo, ln, doc), r in zip(jobs, res):
+        if r is None:
+            ctx.count("imported_revisions", "old version invalid on its own")
+            continue
+        want = same_package_class.get("edit:" + name)
+        ctx.case(("imported", name), sample={"edit": name, "imported": r["class"], "same_package": want, "documented": doc})
+        ctx.count("imported_revisions", "agree" if want == r["class"] else "differ")
+        if want is not None and r["class"] != want:
+            ctx.report("imported-revision-verdict:" + name,
+                       "edit '%s' applied to a definition of an imported namespace (old and new version import different revisions of "
+                       "`Lib`): verdict %s, but %s when the same definitions are part of the package itself (documented: %s)"
+                       % (name, r["class"], want, doc),
+                       {"edit": name, "lib_old": lo, "lib_new": ln, "app": app, "imported_verdict": r["class"], "same_package_verdict": want,
+                        "documented": doc, "output": r["output"][-900:]})
+
+
 def run(ctx):
     ctx.build_repo(need_hook=True)
     ok, failing, log = ctx.coq_props("C06")
@@ -208,6 +252,7 @@ def run(ctx):
     with ThreadPoolExecutor(max_workers=10) as ex:
         st = [x for r in ex.map(ev, shards) for x in r]
     it = iter(st)
+    imported_revisions_layer(ctx, {label: r["class"] for (label, _o, _n, _d), r in live})
     for (label, old, new, doc), r in live:
         code = next(it) if r["case"] else None
         model = {0: "ok", 1: "warn", 2: "err"}[code % 10] if r["case"] else None
